@@ -104,7 +104,73 @@ def judge(ctx, res, w, replay_saved=True):
                 ctx.violation('replay of a saved recording executed a wrapped body', w)
 
 
+def framework_errors_inside_bodies(ctx):
+    """The body of an intercepted input / output raises an exception of the framework's own family (it read another cassette and found
+    nothing: NoSuchRecording; it replayed something and hit a missing key) and the operation handles it and completes. That outcome of
+    the interception is captured like any other: what is saved and not flagged incomplete replays on unchanged code."""
+    from playback.tape_recorder import TapeRecorder
+    from playback.exceptions import NoSuchRecording, RecordingKeyError, TapeRecorderException
+    from vlib.cassettes import open_box
+    from vlib.spies import SpyCassette
+
+    from vlib.values import service_side_error
+    ServiceSideError = service_side_error()
+    for kind in ('memory', 'file', 's3'):
+        for io_kind in ('input', 'output'):
+            for exc in (NoSuchRecording, RecordingKeyError, ServiceSideError, KeyError):
+                with open_box(kind) as box:
+                    spy = SpyCassette(box.cassette)
+                    rec = TapeRecorder(spy)
+                    rec.enable_recording()
+                    state = {'mode': 'live', 'bodies': 0}
+
+                    def failing(*a):
+                        state['bodies'] += 1
+                        raise exc('baseline-recording-42')
+
+                    class Compare(object):
+                        load_baseline = rec.intercept_input('compare.load_baseline')(lambda self, name: failing(name))
+                        store = rec.intercept_output('compare.store')(lambda self, row: failing(row))
+                        current = rec.intercept_input('compare.current')(lambda self: {'value': 7})
+
+                        @rec.operation()
+                        def run(self):
+                            cur = self.current()
+                            try:
+                                base = self.load_baseline('nightly') if io_kind == 'input' else self.store(cur)
+                            except Exception as ex:
+                                base = 'no baseline (%s)' % type(ex).__name__
+                            return [cur, base]
+                    live = Compare().run()
+                    w = {'framework_error_in_body': exc.__name__, 'io': io_kind, 'cassette': kind}
+                    ctx.case(w)
+                    ctx.count('runs_with_a_framework_error_inside_a_body')
+                    saves = [e for e in spy.log if e[0] == 'save' and not (e[4] or {}).get(TapeRecorder.INCOMPLETE_RECORDING)]
+                    ctx.count('finalisations_checked')
+                    if len([e for e in spy.log if e[0] in ('save', 'abort')]) != 1:
+                        ctx.violation('recording finalised %d times; must be exactly once' % len([e for e in spy.log if e[0] in ('save', 'abort')]), w)
+                    if not saves:
+                        continue
+                    state['bodies'] = 0
+                    rec.tape_cassette = box.reader()
+                    try:
+                        pb = rec.play(saves[0][2], lambda recording: Compare().run())
+                        ctx.count('saved_complete_recordings_replayed')
+                    except RecordingKeyError as ex:
+                        ctx.violation('a saved, complete recording hit a missing key when replayed on unchanged code', dict(w, error=str(ex)[:200]))
+                        continue
+                    except BaseException as ex:  # noqa
+                        ctx.count('replays_ended_with_' + type(ex).__name__)
+                        continue
+                    replayed = [o.value['args'][0] for o in pb.playback_outputs if '_tape_recorder_operation' in o.key]
+                    if state['bodies'] or not replayed or replayed[0] != live:
+                        ctx.violation('a saved, complete recording does not replay what the operation did (bodies run: %d, result %r, recorded %r)' % (
+                            state['bodies'], replayed[:1], live), w)
+
+
 def run(ctx):
+    if ctx.shard == 0:
+        framework_errors_inside_bodies(ctx)
     nprog = 10 if ctx.quick else 60
     progs = fr.base_programs(ctx.seed + 101, nprog)
     irng = random.Random(ctx.seed + 77)
@@ -172,6 +238,8 @@ def run(ctx):
 
 
 def replay(ctx, w):
+    if w.get('framework_error_in_body'):
+        return framework_errors_inside_bodies(ctx)
     from vlib.programs import gen_program
     o = dict(threads=False, max_steps=5, max_in_decls=3, max_out_decls=2, explicit_raise=0.1, raise_rate=0.1)
     prog = gen_program(random.Random(w['gen_seed']), **o)
